@@ -25,7 +25,8 @@ def make_copy(edits):
         if fn.endswith((".py", ".pyx")):
             shutil.copy(os.path.join(src, fn), os.path.join(dst, fn))
     for e in edits:
-        p = os.path.join(dst, e["file"])
+        # only ever the scratch copy: an absolute path or a path with directories is reduced to its file name
+        p = os.path.join(dst, os.path.basename(e["file"]))
         with open(p) as f:
             s = f.read()
         old, new = e["old"], e["new"]
